@@ -422,7 +422,7 @@ class MetaSpec_key_signature(MetaSpec):
 class MetaSpec_sequencer_specific(MetaSpec):
     type_byte = 0x7f
     attributes = ['data']
-    defaults = [[]]
+    defaults = [()]
 
     def decode(self, message, data):
         message.data = tuple(data)
@@ -531,6 +531,11 @@ class MetaMessage(BaseMessage):
             if name == 'time':
                 check_time(value)
             else:
+                if name == 'data':
+                    # Stored as a tuple, like sysex data and what the
+                    # decoder returns, so that a message equals its
+                    # decoded encoding whatever sequence it was given.
+                    value = tuple(value)
                 spec.check(name, value)
             self_vars[name] = value
 
